@@ -57,6 +57,9 @@ PROJECTS = {
     'zope_and_subclasses': ({'zp/__init__.py': 'from zope.interface import Interface, implementer\nclass IA(Interface):\n    def m(): "doc"\nclass IB(IA): pass\n'
                                                + ''.join(f'@implementer(IA, IB)\nclass Impl{i}:\n    def m(self): pass\n' for i in range(12))
                                                + ''.join(f'class Sub{i}(Impl{i % 3}): pass\n' for i in range(12))}, ['--project-name', 'zp'], None),
+    # names that differ only by case, names that sort differently with and without case folding
+    'case_pairs': ({'cp/__init__.py': '"""Package."""\n', 'cp/Handler.py': 'class H1:\n    "doc"\n', 'cp/handler.py': 'class h2:\n    "doc"\n',
+                    'cp/Zeta.py': 'x = 1\n', 'cp/alpha.py': 'y = 2\n', 'cp/_b.py': 'z = 3\n', 'cp/B.py': 'w = 4\n'}, ['--project-name', 'cp'], None),
     'docstring_errors': ({'de/__init__.py': '"""L{unknown} and L{other.unknown}"""\n' + ''.join(f'def f{i}():\n    """@param x: nope\n    L{{missing{i}}}\n    @bogus: field"""\n' for i in range(15)),
                           'de/rst.py': '__docformat__ = "restructuredtext"\n' + ''.join(f'def g{i}(a):\n    """:param a: `nowhere{i}`\n    :type a: unknown{i}\n    """\n' for i in range(15))},
                          ['--project-name', 'de'], None),
@@ -69,7 +72,7 @@ PROJECTS = {
 def _cases(tier, seed):
     names = list(PROJECTS)
     if tier == 'quick':
-        names = ['single_root_unnamed', 'two_roots_unnamed', 'three_roots_named', 'zope_and_subclasses', 'docstring_errors', 'buildtime_option']
+        names = ['single_root_unnamed', 'two_roots_unnamed', 'three_roots_named', 'zope_and_subclasses', 'docstring_errors', 'buildtime_option', 'case_pairs']
     for n in names:
         yield {'project': n}
     if tier == 'thorough':
@@ -154,7 +157,7 @@ HARNESS = {
     f'{D}:get_system': {'cases': _cases, 'check': _check,
         'covers': [f'{D}:make', f'{M}:System.addPackage', f'{M}:System.root_names', 'pydoctor/templatewriter/util.py:objects_order',
                    'pydoctor/templatewriter/summary.py:_lckey', 'pydoctor/templatewriter/writer.py:TemplateWriter.writeSummaryPages'],
-        'bound': '6 (9) projects (one/two/three roots, with and without --project-name, 23 cross-importing modules, zope interfaces with 12 implementers, '
+        'bound': '7 (10) projects (one/two/three roots, with and without --project-name, 23 cross-importing modules, zope interfaces with 12 implementers, '
                  'reported docstring errors, source links, --buildtime) x {hash seed 1, hash seed 2, hash seed 77 with reversed directory listings, reused '
                  'output directory}; fresh interpreter per run; sha256 of every written file',
         'budget_s': {'quick': 400, 'thorough': 2400}},
